@@ -36,7 +36,43 @@ def rules(ctx):
     c172(ctx)
     c173(ctx)
     c175(ctx)
+    c176(ctx)
     C07.c071(ctx)
+
+
+def c176(ctx):
+    R = "C17.6"
+    ctx.declare(R, "the head sentinel carries K::default() as a placeholder: an iterator reads the key or value of its current node only where that "
+                   "node is known not to be the head (is_valid(), or a comparison with the head pointer)")
+    n = 0
+    for f in sorted(ctx.prog.fns.values(), key=lambda f: f.key):
+        if f.crate != "skipfree" or not f.skey.startswith("skipfree::SkipListIterator::"):
+            continue
+        for p_ in P.call_points(f, r"skipfree::node_ptr::(key|value)$"):
+            t = P.term_at(f, p_)
+            srcs = P.origins(f, t["args"][0])
+            if not any(x["k"] == "field" and x["f"] == "node" for x in srcs):
+                continue        # a node returned by a search, not the iterator's position
+            if all(x["k"] != "field" or x["f"] != "node" for x in srcs):
+                continue
+            n += 1
+            ok = False
+            for bb, lab, gs in K.guards(f, p_):
+                if lab == "sw:1" and any(x["k"] == "call" and x["callee"].endswith("SkipListIterator::is_valid") for x in gs):
+                    ok = True
+                for x in gs:
+                    if x["k"] == "bin" and x["op"] in ("Ne", "Eq"):
+                        sides = [P.origins(f, x["st"]["rv"]["a"]), P.origins(f, x["st"]["rv"]["b"])]
+                        head = any(any((y["k"] == "field" and y["f"] == "head") or
+                                       (y["k"] == "call" and re.search(r"atomic::Atomic(Ptr)?(<.*>)?::load$", y["callee"]) and
+                                        any(z["k"] == "field" and z["f"] == "head" for z in P.origins(f, y["t"]["args"][0]))) for y in sd) for sd in sides)
+                        node = any(any(y["k"] == "field" and y["f"] == "node" for y in sd) for sd in sides)
+                        if head and node and ((x["op"] == "Ne") == (lab == "sw:1")):
+                            ok = True
+            ctx.check(R, f, "position-read-only-if-not-head", ok, "the current node's key / value is read only where the node is not the head",
+                      "%s reads the key (or value) of the iterator's current node where that node can be the head sentinel (the iterator rests there after "
+                      "walking off the front): the placeholder K::default() is taken for a stored key" % f.skey, pt=p_)
+    ctx.floor(R, "iterator reads of the current node", n, 3)
 
 
 def orderings(f, t):
